@@ -111,8 +111,39 @@ def command_ordering(chk: Check, repo: Repo, cls) -> None:
     chk.ob("new-movement-derived-from-the-frozen-estimate", sv.site(), ok, "start_travel(): every attribute write follows self.stop() and uses only values read after it" + (" — " + "; ".join(probs) if probs else ""), key="order|start_travel")
 
 
+def report_and_direction(chk: Check, repo: Repo, cls) -> None:
+    """(1) A position report re-anchors the estimate: update_position() stores the reported value and the time of the
+    report unconditionally — also when the value equals the last known one (a report "still at 20" five seconds into a
+    travel means 20 now, not 20 five seconds ago).  (2) Whether the cover is moving is a question of time (is_traveling:
+    estimate != target); `travel_direction` is only reset by stop() and stays on the old direction after a travel that
+    ended by time alone, so nothing outside the calculator decides "moving" by it (Cover.stop may read it to pick the
+    step direction)."""
+    up = cls.methods["update_position"]
+    chk.unit(up)
+    cfg = CFG(up.node)
+    p0 = up.node.args.args[1].arg
+    def assigns(attr: str):
+        return [n for n in cfg.nodes if n.kind == "stmt" and isinstance(n.ast, ast.Assign) and ast.unparse(n.ast.targets[0]) == f"self.{attr}"]
+    pos, ts = assigns("_last_known_position"), assigns("_last_known_position_timestamp")
+    ok = len(pos) == 1 and len(ts) == 1 and ast.unparse(pos[0].ast.value) == p0 and call_name(ts[0].ast.value) in ("time.time", "time.monotonic") if len(ts) == 1 and isinstance(ts[0].ast.value, ast.Call) else False
+    ok = ok and cfg.all_paths_hit(cfg.entry, [pos[0].id], [cfg.exit], edge_ok=cfg.normal_only) and cfg.all_paths_hit(cfg.entry, [ts[0].id], [cfg.exit], edge_ok=cfg.normal_only)
+    chk.ob("report-re-anchors-the-estimate", up.site(), ok, "update_position(): position and timestamp are stored on every path" if ok else "update_position() does not store the reported position and the time of the report on every path (e.g. skips an unchanged value): the estimate keeps interpolating from the older anchor — it is ahead of the reported value and reaches the target before the travel time has elapsed", key="report|anchor")
+    readers = sorted({f.qualname for f in repo.all_functions() if f.cls is not cls for n in ast.walk(f.node) if isinstance(n, ast.Attribute) and n.attr == "travel_direction" and isinstance(n.ctx, ast.Load)})
+    chk.ob("moving-is-decided-by-time-not-by-the-direction-flag", f"{cls.module.relpath}:{cls.node.lineno}:{cls.name}", set(readers) <= {"Cover.stop"}, f"`travel_direction` is read outside TravelCalculator in {readers} (allowed: Cover.stop, to choose the step direction)", key="direction|readers")
+    cv = repo.func("xknx.devices.cover", "Cover._current_position_from_rv")
+    chk.unit(cv)
+    ccfg = CFG(cv.node)
+    mf = ccfg.must_facts()
+    upd = [n for n in ccfg.nodes if n.ast is not None and n.kind == "stmt" and any(call_name(c).endswith("travelcalculator.update_position") for c in calls(n.ast))]
+    setp = [n for n in ccfg.nodes if n.ast is not None and n.kind == "stmt" and any(call_name(c).endswith("travelcalculator.set_position") for c in calls(n.ast))]
+    moving = ("self.is_traveling()", "self.travelcalculator.is_traveling()")
+    ok2 = len(upd) == 1 and len(setp) == 1 and any((t, True) in mf[upd[0].id] for t in moving) and any((t, False) in mf[setp[0].id] for t in moving)
+    chk.ob("moving-is-decided-by-time-not-by-the-direction-flag", cv.site(), ok2, "a position report updates the running estimate exactly while is_traveling(), and sets the position otherwise", key="direction|report-branch")
+
+
 def run(chk: Check, repo: Repo) -> None:
     cls = repo.cls(M, "TravelCalculator")
+    report_and_direction(chk, repo, cls)
     tree = call_tree(repo, "current_position")
     chk.floor("functions below current_position", len(tree), 3)
     for f in tree:
